@@ -1,4 +1,84 @@
 import Model.Base.Proto
+import Model.Tab.TextTab
+import Model.Spec.Layout
 
-/-- stub: replaced when the property's driver is built -/
-def main : IO Unit := pure ()
+namespace Driver.C16
+open Proto Tab.TextTab
+
+/- case <id> kind=tab ops=<op,op,…> perm=<i,i,…> text=<hex of the implementation's output>
+     op: r | c<n> | k<n>:<0|1> | s<span>:<hex value>:<opt/opt…>   opt: L C R M<hex margin>
+   obs  <id> out=<hex>            (model Format, under the order Go's unstable sort produced)
+   spec <id> layout=ok|fail:…     (geometric oracle on the implementation's text) -/
+
+def dropS (s : String) (n : Nat) : String := String.ofList (s.toList.drop n)
+
+def parseOpt (s : String) : Option Opt :=
+  match s.toList with
+  | ['L'] => some .left
+  | ['C'] => some .center
+  | ['R'] => some .right
+  | 'M' :: rest => (Bytes.ofHex (String.ofList rest)).map Opt.margin
+  | _ => none
+
+def parseOp (s : String) : Option Op :=
+  match s.toList with
+  | ['r'] => some .row
+  | 'c' :: rest => (String.ofList rest).toNat?.map Op.col
+  | 'k' :: rest =>
+    match (String.ofList rest).splitOn ":" with
+    | [c, b] => c.toNat?.map fun c => Op.setShrink c (b == "1")
+    | _ => none
+  | 's' :: rest =>
+    match (String.ofList rest).splitOn ":" with
+    | [n, v, o] =>
+      match n.toNat?, Bytes.ofHex v with
+      | some n, some v =>
+        let os := if o == "" then some [] else (o.splitOn "/").mapM parseOpt
+        os.map fun os => Op.span n v os
+      | _, _ => none
+    | _ => none
+  | _ => none
+
+def parseOps (s : String) : Option (List Op) :=
+  if s == "-" then some [] else (s.splitOn ",").mapM parseOp
+
+def parseNats (s : String) : List Nat :=
+  if s == "-" then [] else (s.splitOn ",").filterMap String.toNat?
+
+def handleTab (l : Line) : IO Unit := do
+  let id := l.id
+  match parseOps (l.getD "ops" "-") with
+  | none => IO.println s!"obs {id} out=!badcase"
+  | some ops =>
+    match build ops with
+    | none =>
+      IO.println s!"obs {id} out=!panic"
+      IO.println s!"spec {id} layout=ok"
+    | some t =>
+      let perm := parseNats (l.getD "perm" "-")
+      if !validOrder t.cells perm then
+        IO.println s!"obs {id} out=!badperm"
+        IO.println s!"spec {id} layout=ok"
+      else
+        let ordered := applyOrder t.cells perm
+        IO.println s!"obs {id} out={(format t ordered).toHex}"
+        -- S: judge the implementation's text with the model's offsets as the witness
+        let L := layoutOf true insertSortCols t ordered
+        let offs := fun (k : Nat) => (L.offs.getD k (L.offs.getLastD 0)).toNat
+        match l.bytes? "text" with
+        | some text =>
+          let (v, _) := Spec.Layout.judge text t.cells offs
+          IO.println s!"spec {id} layout={v}"
+        | none => IO.println s!"spec {id} layout=ok"
+
+def handle (l : Line) : IO Unit := do
+  if l.kind != "case" then return
+  match l.getD "kind" with
+  | "tab" => handleTab l
+  | _ => pure ()
+
+end Driver.C16
+
+def main : IO Unit := do
+  let stdin ← IO.getStdin
+  Proto.forEachLine stdin fun s => Driver.C16.handle (Proto.parseLine s)
